@@ -42,7 +42,11 @@ def make(cfg, seed, opd_scale=1.0, wl=None, tilt=None):
 
 def cfg_for(pupil, N, os_, eps_sign, aniso=False):
     """wavelength that makes the FFT grid N (per axis (2N, N) when aniso)."""
-    if aniso:
+    if aniso == 'wide':
+        dx, du = (2.0 ** -7, 2.0 ** -7), (2.0 ** -16, 2.0 ** -17)
+        Ngrid = (N, 2 * N)
+        wl_rep = N * 2.0 ** -23 / os_
+    elif aniso:
         dx, du = (2.0 ** -7, 2.0 ** -7), (2.0 ** -17, 2.0 ** -16)
         Ngrid = (2 * N, N)
         wl_rep = N * 2.0 ** -23 / os_
@@ -245,7 +249,7 @@ def t_cfg(arg, acc):
     for N in grids(pupil, tier):
         for os_ in (1, 2, 3):
             for eps in (0, 1, -1):
-                for aniso in (False, True):
+                for aniso in (False, True, 'wide'):
                     if aniso and (eps != 0 or N > max(pupil) + 2):
                         continue
                     for support in (('full', 'offcentre', 'block') if eps == 0 and not aniso else ('full',)):
